@@ -15,7 +15,7 @@ Quick == Tier = "quick"
 FirstBytes == IF Quick THEN {0, 1, 2, 6, 7, 255} ELSE (0..9) \cup {127, 128, 255}
 MaxLen == 1 + 32 * (5 + 6 + 2 * 4) + 33
 \* long encodings: many folding rounds (the decoder puts no upper limit on k)
-LongLens == { 1 + 32 * (5 + d + 2 * k) + e : d \in {1, 6}, k \in {13, 14, 15, 16, 17, 18, 31, 100, 124, 125, 126, 129, 255, 256, 300}, e \in {0, 1} }
+LongLens == { 1 + 32 * (5 + d + 2 * k) + e : d \in {1, 6}, k \in {13, 14, 15, 16, 17, 18, 31, 63, 64, 65, 100, 124, 125, 126, 127, 128, 129, 130, 255, 256, 300, 1020, 1021, 1024, 2050, 4100}, e \in {0, 1} }
 Lens == (IF Quick THEN {x \in 0..MaxLen : x % 32 \in {0, 1, 2, 31} \/ x < 4} ELSE 0..MaxLen) \cup LongLens
 
 VARIABLES pc, len, fb, nc, tag, pos, pairs, res
@@ -25,7 +25,8 @@ NCh == IF len = 0 THEN 0 ELSE (len - 1) \div 32       \* number of full chunks
 Rem == IF len = 0 THEN 0 ELSE (len - 1) % 32
 Init == /\ pc = "first" /\ tag = 0 /\ pos = 0 /\ pairs = 0 /\ res = "none"
         /\ len \in Lens /\ fb \in FirstBytes
-        /\ nc \in {x \in 0..(IF len = 0 THEN 0 ELSE (len - 1) \div 32) : x <= 24 \/ x % 16 = 0 \/ x >= ((len - 1) \div 32) - 1}
+        /\ nc \in {x \in 0..(IF len = 0 THEN 0 ELSE (len - 1) \div 32) :
+                      x <= 24 \/ x >= ((len - 1) \div 32) - 1 \/ (IF len <= 32 * 700 THEN x % 16 = 0 ELSE x % 1024 = 0)}
 Fail == pc' = "done" /\ res' = "err" /\ UNCHANGED <<len, fb, nc, tag, pos, pairs>>
 Step(npc) == pc' = npc /\ UNCHANGED <<len, fb, nc, res>>
 
